@@ -392,13 +392,26 @@ func checkC12(e *Env) {
 				x := e.refEval(op)
 				if op.Fn == "new" && op.Shared && validCount64(op.N) {
 					need := int(op.N) + int(op.N)/3
-					if consumed+need > len(delivered[w]) {
-						viol(fmt.Sprintf("worker %d call %d: NewMnemonic returned %s but the shared source delivered only %d further bytes to this goroutine", w, i, preview(string(unhex(r.Out))), len(delivered[w])-consumed), r)
+					// exactly-once: the sentence encodes a slice of the bytes delivered to this
+					// goroutine, after the slices of its earlier calls (the position is searched:
+					// a consumer may read more than it uses)
+					got := string(unhex(r.Out))
+					found := -1
+					for k := consumed; k+need <= len(delivered[w]); k++ {
+						if e.Model.Enc(delivered[w][k:k+need], int(op.L)) == got {
+							found = k
+							break
+						}
+					}
+					if found < 0 || r.Err != nil {
+						viol(fmt.Sprintf("worker %d call %d: NewMnemonic(%d, %s) = %s (err %s) does not encode any %d consecutive bytes the shared source delivered to this goroutine after its previous call", w, i, op.N, ref.Names[op.L], preview(got), errText(r.Err), need), r)
 						return
 					}
-					want := e.Model.Enc(delivered[w][consumed:consumed+need], int(op.L))
-					consumed += need
-					x = refExpect{defined: true, out: &want, errClass: "nil"}
+					if found != consumed {
+						obs.Inc("shared_source_calls_that_skipped_bytes(over-read)")
+					}
+					consumed = found + need
+					x = refExpect{defined: true, errClass: "nil"}
 					obs.Inc("shared_source_calls_matched_exactly_once")
 				}
 				if why := e.judgeAgainstRef(op, r, x); why != "" {
@@ -412,8 +425,7 @@ func checkC12(e *Env) {
 				dist.Add(soloKey(*op))
 			}
 			if p.shared != nil && consumed != len(delivered[w]) {
-				viol(fmt.Sprintf("worker %d drew %d bytes from the shared source but its mnemonics account for %d", w, len(delivered[w]), consumed), nil)
-				return
+				obs.Add("shared_source_bytes_delivered_but_not_encoded(over-read)", len(delivered[w])-consumed)
 			}
 		}
 		// cold-start overlap degree per language: goroutines whose first call on the
